@@ -19,7 +19,7 @@ def _enum_harness(spec: EnumSpec, pname, role, consts=""):
     conds = []
     for i, v in en:
         if fieldless:
-            conds.append("if d == (%s::%s as %s) { Some(%du32) }" % (spec.name, v.ident, R, i))
+            conds.append("if d == (%s::%s as %s) { Some(%du32) }" % (spec.ty().replace("<", "::<", 1), v.ident, R, i))
         else:
             conds.append("if d == %s { Some(%du32) }" % (int_lit(discs[i], R), i))
     if conds:
@@ -60,7 +60,7 @@ def _enum_harness(spec: EnumSpec, pname, role, consts=""):
     if fieldless and en:
         # round trip through the cast for a symbolic variant selector
         b = ["    let k = nd_u8();", "    vassume((k as usize) < %d);" % len(en)]
-        b.append("    let v = match k { " + " ".join("%d => %s::%s," % (j, spec.name, v.ident) for j, (i, v) in enumerate(en)) + " _ => unreachable!() };")
+        b.append("    let v = match k { " + " ".join("%d => %s::%s," % (j, spec.ty().replace("<", "::<", 1), v.ident) for j, (i, v) in enumerate(en)) + " _ => unreachable!() };")
         b.append('    vcover!(k == %d, "last enabled variant");' % (len(en) - 1))
         b.append("    let back = %s::from_repr(v.clone() as %s);" % (spec.ty().replace("<", "::<", 1), R))
         b.append('    assert!(back == Some(v), "from_repr(v as R) != Some(v)");')
@@ -112,6 +112,8 @@ def pivot():
     S.append(EnumSpec("ConstNamed", [U("A", disc="3", disc_val=3), U("B", disc="A_DISCRIMINANT", disc_val=10), U("C"), U("D", disc="LIMIT_B", disc_val=40), U("E")],
                       derives=d, std_derives=std, repr="u8",
                       note="discriminants that name user constants, one of them called like the derive's internal per-variant constant (<Variant>_DISCRIMINANT)"))
+    S.append(EnumSpec("CgLevel", [U("Low"), U("Mid", disc="5", disc_val=5), U("H", disabled=True), U("High")], derives=d, std_derives=std, repr="i8",
+                      generics="<const BIAS: i8>", ty_args="<3>", note="field-less enum with a const-generic parameter: from_repr must stay callable in const context"))
     S.append(EnumSpec("ExprTy8", [U("Half", disc="!0 >> 1", disc_val=127), U("Next"), U("H", disabled=True), U("Q", disc="!0 / 4", disc_val=63), U("R")],
                       derives=d, std_derives=std, repr="u8", note="expressions whose value depends on being typed at the repr type (u8): !0 >> 1, !0 / 4"))
     S.append(EnumSpec("ExprTy16", [U("A", disc="!0 >> 4", disc_val=0x0fff), U("B"), U("C", disc="1 << 15", disc_val=32768), U("D")],
